@@ -4,6 +4,7 @@ import (
 	"bytes"
 	"encoding/hex"
 	"fmt"
+	"math"
 	"sort"
 
 	"github.com/btcsuite/btcd/btcec"
@@ -45,6 +46,16 @@ type BindingOutput struct {
 	Holder        massutil.Address
 	BindingTarget massutil.Address
 	Amount        massutil.Amount
+}
+
+// minedHeight returns the height of the block a previous transaction was mined
+// in. A transaction that is still pending has no block; like the transaction
+// pool, treat it as mined at the highest possible height.
+func minedHeight(block *txmgr.BlockMeta) uint64 {
+	if block == nil {
+		return math.MaxUint64
+	}
+	return block.Height
 }
 
 func (w *WalletManager) constructTxIn(inputs []*TxIn, lockTime uint64) (*wire.MsgTx, []utils.PkScript, massutil.Amount, error) {
@@ -91,7 +102,7 @@ func (w *WalletManager) constructTxIn(inputs []*TxIn, lockTime uint64) (*wire.Ms
 		switch {
 		case pks.IsStaking():
 			txIn.Sequence = pks.Maturity()
-		case pks.IsBinding() && forks.EnforceMASSIP0002WarmUp(block.Height):
+		case pks.IsBinding() && forks.EnforceMASSIP0002WarmUp(minedHeight(block)):
 			txIn.Sequence = consensus.MASSIP0002BindingLockedPeriod
 		default:
 		}
@@ -671,7 +682,7 @@ func (w *WalletManager) signWitnessTx(password []byte, tx *wire.MsgTx, hashType 
 		}
 
 		scriptFlags := txscript.StandardVerifyFlags
-		if forks.EnforceMASSIP0002WarmUp(cacheMeta[txIn.PreviousOutPoint.Hash].Height) {
+		if forks.EnforceMASSIP0002WarmUp(minedHeight(cacheMeta[txIn.PreviousOutPoint.Hash])) {
 			scriptFlags |= txscript.ScriptMASSip2
 		}
 		// Either it was already signed or we just signed it.
